@@ -1,0 +1,13 @@
+//go:build verif
+
+package stream
+
+// VerifHook, when set, is called at named points of the stream life cycle. It exists in
+// verification builds (-tags verif) only and lets a test harness delay a goroutine there.
+var VerifHook func(point string)
+
+func verifHook(point string) {
+	if h := VerifHook; h != nil {
+		h(point)
+	}
+}
